@@ -1126,6 +1126,7 @@ pub fn run(suite: &str, thorough: bool, seed: u64, shard: usize, nshards: usize,
                     continue; // a well-formed member
                 }
                 let pos = r.below(d.item.members.len() + 1);
+                let gtoks: Vec<Json> = g.iter().map(|t| Json::s(t.clone())).collect();
                 d.item.members.insert(pos, doc::MemberDoc::Garbage(g));
                 d.item.enum_trailing_comma = true;
                 let rd = doc::render(&d);
@@ -1140,6 +1141,8 @@ pub fn run(suite: &str, thorough: bool, seed: u64, shard: usize, nshards: usize,
                         ("end", Json::n(laid.tok_spans[gs.terminator.unwrap()].1)),
                         ("position", Json::n(pos)),
                         ("siblings", Json::Arr(siblings)),
+                        ("tokens", Json::Arr(gtoks)),
+                        ("enum", Json::Bool(is_enum)),
                     ]),
                 )];
                 em.case(sd, parse_case(&vec![("f".to_owned(), laid.text)], extra));
